@@ -28,8 +28,13 @@
                               (Proofs/AbnfSpell.v: ABNF derivations -> token-grammar derivations + spellings, continuation-passing through the bracket structure);
      C03_complete_abnf_no_call - the same with filter selectors: logical expressions, comparisons, parentheses, negation, existence tests, nested
                               queries and nested filters - every string of the grammar that makes no function call compiles (Proofs/AbnfSpellF.v);
-   What remains unproved: strings with function calls, where validity depends on the registry and on the derivation (a parenthesised argument is a
-   logical expression, so the syntax tree does not decide it): there the theorem is C03_complete_spelled, relative to the typed token grammar.  The check renders every generated valid query in every
+     C03_complete_abnf_builtin - the whole language with the built-in functions: the RFC grammar in which every function call is a well-typed use of
+                              length / count / value / match / search (bf_grammar: the typing rules of RFC 9535 2.4.3 with the signatures of 2.4.4-2.4.8
+                              written into the grammar; every string of it is a string of the RFC grammar, C03_builtin_is_rfc): every string it
+                              derives compiles wherever those five functions are registered with those signatures and the range contains its integers
+                              (Proofs/AbnfSpellG.v);
+   What remains a reading rather than a theorem: that bf_grammar is exactly "ABNF + well-typed with the built-in functions" (it is written from the RFC's
+   typing rules; the other inclusion - everything that compiles is in it - is not proved; C04_sound gives membership in the RFC grammar).  The check renders every generated valid query in every
    lexical form and requires it to compile to the generating structure. *)
 From JP Require Import Base.Json Spec.Abnf Spec.Rfc9535Grammar Model.PyFloat.
 
@@ -198,3 +203,21 @@ Example C03_abnf_no_call_nonvacuous :
   let s := [36;91;63;64;46;97;32;61;61;32;39;120;39;32;38;38;32;33;40;32;64;32;46;98;91;32;48;32;93;32;60;49;46;53;101;45;51;124;124;32;36;46;46;99;32;91;63;64;62;61;32;45;50;32;93;41;93;32;91;39;107;39;44;32;49;58;93]%N in
   derives nf_grammar (R r_jsonpath_query) s.
 Proof. intros s. apply (accepts_sound nf_grammar (40 * length s + 200)). vm_compute. reflexivity. Qed.
+
+(* ---- the whole language, with the built-in functions ----
+   bf_grammar: comparable = literal / singular-query / VALUE-CALL, test-expr = [!] (filter-query / LOGICAL-CALL),
+   VALUE-CALL = length "(" S VALUE-ARG S ")" / count "(" S filter-query S ")" / value "(" S filter-query S ")",  VALUE-ARG = literal / singular-query / VALUE-CALL,
+   LOGICAL-CALL = (match / search) "(" S VALUE-ARG S "," S VALUE-ARG S ")"; every other rule as in the RFC. *)
+From JP Require Import Proofs.AbnfSpellG.
+Theorem C03_complete_abnf_builtin : forall s, derives bf_grammar (R r_jsonpath_query) s ->
+  exists B, forall cfg, min_idx cfg <= - B -> B <= max_idx cfg -> std cfg -> exists q, m_compile cfg s = Ok q.
+Proof. intros s H. destruct (abnf_builtin_compiles s H) as (B & K). exists B. intros cfg H1 H2 H3. apply K; [split; assumption | exact H3]. Qed.
+Print Assumptions C03_complete_abnf_builtin.
+Theorem C03_builtin_is_rfc : forall s, derives bf_grammar (R r_jsonpath_query) s -> rfc_query s.
+Proof. exact builtin_grammar_is_rfc. Qed.
+Print Assumptions C03_builtin_is_rfc.
+
+(* not vacuous:  $[?length(@.a) >= 2 && match( @.b , 'x.*' ) || count(@..* ) == value(@.c[?@ > 1]) || !search(@['d'], "y")][ ?length( length(@) ) ==1] *)
+Example C03_abnf_builtin_nonvacuous :
+  let s := [36;91;63;108;101;110;103;116;104;40;64;46;97;41;32;62;61;32;50;32;38;38;32;109;97;116;99;104;40;32;64;46;98;32;44;32;39;120;46;42;39;32;41;32;124;124;32;99;111;117;110;116;40;64;46;46;42;41;32;61;61;32;118;97;108;117;101;40;64;46;99;91;63;64;32;62;32;49;93;41;32;124;124;32;33;115;101;97;114;99;104;40;64;91;39;100;39;93;44;32;34;121;34;41;93;91;32;63;108;101;110;103;116;104;40;32;108;101;110;103;116;104;40;64;41;32;41;32;61;61;49;93]%N in derives bf_grammar (R r_jsonpath_query) s.
+Proof. intros s. apply (accepts_sound bf_grammar (40 * length s + 200)). vm_compute. reflexivity. Qed.
